@@ -131,6 +131,20 @@ pub fn random_plain(rng: &mut Rng) -> String {
 /// literal with an explicit (possibly extreme) exponent
 pub fn with_exponent(rng: &mut Rng) -> String {
     let m = random_plain(rng);
+    if rng.chance(1, 12) {
+        // exponents that overflow 16/32/64-bit accumulators, or only look long (leading zeros)
+        let m = if rng.chance(1, 3) { rng.pick(&["0", "-0", "+0", "0.0", "-0.0", ".0", "-.0", "0.", "0.000", "00"]).to_string() } else { m };
+        let digits: String = match rng.usize(6) {
+            0 => (0..10 + rng.usize(16)).map(|_| (b'0' + rng.usize(10) as u8) as char).collect(),
+            1 => rng.pick(&["2147483647", "2147483648", "2147483649", "4294967295", "4294967296", "4294967297", "9223372036854775807", "9223372036854775808", "18446744073709551616", "32767", "32768", "65535", "65536", "65541"]).to_string(),
+            2 => format!("{}{}", "0".repeat(10 + rng.usize(30)), rng.usize(40)),
+            3 => format!("{}", 4294967296u64 + rng.usize(400) as u64),
+            4 => format!("{}", 18446744073709551616u128 + rng.usize(400) as u128),
+            _ => format!("{}", 400 + rng.usize(100_000)),
+        };
+        let sign = *rng.pick(&["", "+", "-", "-"]);
+        return format!("{}{}{}{}", m, if rng.bool() { "E" } else { "e" }, sign, digits);
+    }
     let e = match rng.usize(6) {
         0 => rng.range(-400, 400),
         1 => rng.range(-50, 50),
